@@ -126,7 +126,7 @@ static Str enc_hist(const std::vector<Op> &h) { Str e; for (size_t i = 0; i < h.
 
 // replays a history on a fresh machine; returns the state key, "" when not applicable
 static Str replay_hist(Ctx &ctx, Local &lc, const std::vector<Op> &h, Str *viol, int max_fail) {
-    Machine m; lc.replays++; int sig;
+    Machine m; lc.replays++; int sig; SanWatch sw;
     if ((sig = GUARD_ENTER()) != 0) { *viol = fmt("%s while executing the allocator sequence", signame(sig)); return ""; }
     for (size_t i = 0; i < h.size(); i++) {
         bool na; Str w = m.apply(h[i], &na);
@@ -137,6 +137,7 @@ static Str replay_hist(Ctx &ctx, Local &lc, const std::vector<Op> &h, Str *viol,
     Str k = m.key();
     Machine *mp = &m; Str d = mp->drain(); if (!d.empty()) *viol = d;
     GUARD_LEAVE(); (void)ctx;
+    if (sw.tripped()) *viol = "AddressSanitizer reported an invalid access";
     return k;
 }
 
